@@ -30,6 +30,8 @@ def check(case):
         return Fail('construction-raises', f'{exc_sig(lib)}: {lib!r}')
     root_r, root = cells[-1], lib[-1]
     light = case.get('light', False)
+    if not light:
+        dag.disturb(lib)            # history: inner nodes serialised on their own, builders/slices derived and used
     for (idx, crc, cache) in boccases.OPTSETS:
         tag = f'idx{idx}crc{crc}cache{cache}'
         ok, boc = call(root.to_boc, bool(idx), bool(crc), bool(cache))
